@@ -38,11 +38,16 @@ def _atom(test, atoms, ctx, func):
             # a tuple of iterator classes stands for _BaseIterator only if it lists every subclass
             base = ctx.proj.cls("iterators._BaseIterator")
             subs = {c.name for c in ctx.proj.subclasses(base)}
-            leaf = {c.name for c in ctx.proj.subclasses(base) if not ctx.proj.subclasses(c, strict=True)}
+            concrete = {c.name for c in ctx.proj.subclasses(base, strict=True)}
+            # a listed class covers its own subclasses
+            covered = set()
+            for c in ctx.proj.subclasses(base):
+                if c.name in names:
+                    covered |= {k.name for k in ctx.proj.subclasses(c)}
             if set(names) <= subs:
-                if leaf <= set(names) or "_BaseIterator" in names:
+                if concrete <= covered or "_BaseIterator" in names:
                     return atoms["base"]
-                raise _Stop("isinstance test lists %s but misses iterator classes %s" % (names, sorted(leaf - set(names))))
+                raise _Stop("isinstance test lists %s but misses iterator classes %s" % (names, sorted(concrete - covered)))
         raise _Stop("unmodelled isinstance test %s" % t)
     if isinstance(test, ast.Name) and test.id == "from_string":
         return atoms.get("from_string", False)
@@ -73,8 +78,15 @@ def _walk(stmts, atoms, state, ctx, func):
             if r is not None:
                 return r
             continue
+        if isinstance(st, ast.Try):
+            r = _walk(st.body + st.orelse + st.finalbody, atoms, state, ctx, func)
+            if r is not None:
+                return r
+            continue
         if isinstance(st, ast.Return):
             v = st.value
+            if isinstance(v, ast.Name) and v.id in state.get("made", {}):
+                v = state["made"][v.id]
             if isinstance(v, ast.Name):
                 return "return " + v.id
             if isinstance(v, ast.Call):
@@ -92,6 +104,8 @@ def _walk(stmts, atoms, state, ctx, func):
             val = norm(st.value)
             if "NamedTemporaryFile" in val or "mkstemp" in val:
                 state["tmp"] = tgt
+            elif isinstance(st.value, ast.Call) and isinstance(st.targets[0], ast.Name) and isinstance(st.value.func, ast.Name):
+                state.setdefault("made", {})[tgt] = st.value
             if tgt == "_kwargs['data']":
                 if state.get("tmp") and val.startswith(state["tmp"]):
                     state["tmpdata"] = True
@@ -125,7 +139,8 @@ def r2(ctx):
     pk = require_func(ctx, "iterators._FeatureIterator.peek")
     cfg = cfg_of(pk)
     loops = [n for n in ast.walk(pk.node) if isinstance(n, ast.For)]
-    ctx.require(loops, "_FeatureIterator.peek has no loop")
+    if not loops:
+        return _r2_islice(ctx, pk, cfg)
     loop = loops[0]
     src = loop.iter.args[0] if isinstance(loop.iter, ast.Call) and is_name(loop.iter.func, "enumerate") else loop.iter
     islice = isinstance(src, ast.Call) and call_attr(src) == "islice"
@@ -170,6 +185,34 @@ def r2(ctx):
            sig="file peek iterates %s" % (norm(src) if src is not None else None))
     stores = [n for n in ast.walk(fpk.node) if isinstance(n, ast.Assign) and norm(n.targets[0]).startswith("self.data")]
     ctx.ob("R2", not stores, "peeking a file does not touch the data source", func=fpk, sig="file peek stores %s" % [norm(s) for s in stores], nontrivial=False)
+
+
+def _r2_islice(ctx, pk, cfg):
+    """peek written as  look = list(itertools.islice(self.data, k))  + re-chain."""
+    tk = [n for n in ast.walk(pk.node) if isinstance(n, ast.Assign) and isinstance(n.targets[0], ast.Name) and isinstance(n.value, ast.Call)
+          and is_name(n.value.func, "list") and n.value.args and isinstance(n.value.args[0], ast.Call) and call_attr(n.value.args[0]) == "islice"]
+    ctx.require(len(tk) == 1, "_FeatureIterator.peek neither loops over its data nor takes an islice of it")
+    look = tk[0].targets[0].id
+    sl = tk[0].value.args[0]
+    ok = sl.args and norm(sl.args[0]) == "self.data" and len(sl.args) == 2
+    ctx.ob("R2", ok, "peeking draws a bounded prefix from the data source itself, keeping every item drawn", node=tk[0], func=pk,
+           sig="peek takes %s" % norm(sl))
+    re = [n for n in ast.walk(pk.node) if isinstance(n, ast.Assign) and norm(n.targets[0]) == "self.data"]
+    ok = len(re) == 1 and isinstance(re[0].value, ast.Call) and norm(re[0].value.func) in ("itertools.chain", "chain") and \
+        [norm(a) for a in re[0].value.args] == [look, "self.data"] and cfg.node_for(re[0]).id in cfg.reachable(cfg.node_for(tk[0]).id)
+    ctx.ob("R2", ok, "peeked items are chained back in front of the rest, in order", func=pk, sig="self.data := %s" % (norm(re[0].value) if re else "not re-chained"))
+    if re:
+        g = [norm(t) for t, pol in guards_of(re[0], pk.node) if pol]
+        ctx.ob("R2", g in ([], ["hasattr(self.data, '__next__')"]), "re-chaining happens for every one-shot source", node=re[0], func=pk, sig="re-chain guard %s" % g)
+    rets = [n for n in ast.walk(pk.node) if isinstance(n, ast.Return)]
+    ctx.ob("R2", bool(rets) and all(norm(r.value) == look for r in rets), "peek returns the look-ahead list", func=pk, sig="peek returns %s" % [norm(r.value) for r in rets], nontrivial=False)
+    fpk = require_func(ctx, "iterators._FileIterator.peek")
+    loops = [n for n in ast.walk(fpk.node) if isinstance(n, ast.For)]
+    src = None
+    if loops:
+        src = loops[0].iter.args[0] if isinstance(loops[0].iter, ast.Call) and is_name(loops[0].iter.func, "enumerate") else loops[0].iter
+    ok = src is not None and norm(src) == "self._custom_iter()"
+    ctx.ob("R2", ok, "peeking a file re-opens it (a fresh _custom_iter())", func=fpk, sig="file peek iterates %s" % (norm(src) if src is not None else None))
 
 
 def r3(ctx):
